@@ -811,42 +811,7 @@ class Context:
                 return False
             return x == int(x)
 
-        def parseInt_fn(*args):
-            s = to_string(args[0]) if args else ""
-            radix = int(to_number(args[1])) if len(args) > 1 else 10
-            if radix == 0:
-                radix = 10
-            s = s.strip()
-            if not s:
-                return float("nan")
-            # Handle leading sign
-            sign = 1
-            if s.startswith("-"):
-                sign = -1
-                s = s[1:]
-            elif s.startswith("+"):
-                s = s[1:]
-            # Handle 0x prefix for hex
-            if s.startswith("0x") or s.startswith("0X"):
-                radix = 16
-                s = s[2:]
-            # Parse digits
-            result = 0
-            found = False
-            for ch in s:
-                if ch.isdigit():
-                    digit = ord(ch) - ord("0")
-                elif ch.isalpha():
-                    digit = ord(ch.lower()) - ord("a") + 10
-                else:
-                    break
-                if digit >= radix:
-                    break
-                result = result * radix + digit
-                found = True
-            if not found:
-                return float("nan")
-            return sign * result
+        parseInt_fn = self._global_parseint  # the same function as the global
 
         def parseFloat_fn(*args):
             s = to_string(args[0]) if args else ""
@@ -1175,39 +1140,38 @@ class Context:
         return not (math.isnan(x) or math.isinf(x))
 
     def _global_parseint(self, *args):
-        """Global parseInt."""
-        s = to_string(args[0]) if args else ""
-        radix = int(to_number(args[1])) if len(args) > 1 else 10
-        if radix == 0:
-            radix = 10
-        s = s.strip()
-        if not s:
-            return float("nan")
-        sign = 1
-        if s.startswith("-"):
-            sign = -1
+        """Global parseInt, also Number.parseInt."""
+        from .values import _JS_WHITESPACE
+
+        s = to_string(args[0] if args else UNDEFINED).lstrip(_JS_WHITESPACE)
+        sign = -1 if s.startswith("-") else 1
+        if s[:1] in ("+", "-"):
             s = s[1:]
-        elif s.startswith("+"):
-            s = s[1:]
-        if s.startswith("0x") or s.startswith("0X"):
-            radix = 16
-            s = s[2:]
-        result = 0
-        found = False
-        for ch in s:
-            if ch.isdigit():
-                digit = ord(ch) - ord("0")
-            elif ch.isalpha():
-                digit = ord(ch.lower()) - ord("a") + 10
-            else:
-                break
-            if digit >= radix:
-                break
-            result = result * radix + digit
-            found = True
-        if not found:
+        radix = to_number(args[1]) if len(args) > 1 else 0
+        # ToInt32; negative values are out of range either way
+        radix = int(radix) & 0xFFFFFFFF if math.isfinite(radix) else 0
+        if radix in (0, 16) and s[:2] in ("0x", "0X"):
+            s, radix = s[2:], 16
+        radix = radix or 10
+        if not 2 <= radix <= 36:
             return float("nan")
-        return sign * result
+        valid = "0123456789abcdefghijklmnopqrstuvwxyz"[:radix]
+        valid += valid.upper()  # ASCII only: str.isdigit()/isalpha() accept far more
+        end = 0
+        while end < len(s) and s[end] in valid:
+            end += 1
+        if end == 0:
+            return float("nan")
+        digits = s[:end].lstrip("0")
+        if not digits:
+            return -0.0 if sign < 0 else 0
+        try:
+            # 1100 digits exceed the largest double in every radix
+            value = float("inf") if len(digits) > 1100 else int(digits, radix)
+            # a number is a double: beyond 2^53 round to the nearest one
+            return sign * (value if value <= 2**53 else float(value))
+        except OverflowError:
+            return sign * float("inf")
 
     def _global_parsefloat(self, *args):
         """Global parseFloat."""
